@@ -144,6 +144,12 @@ def generate(run_seed, tier):
                                unscaled=r.random() < 0.6,
                                z=r.randrange(2, mc.p),
                                hash=r.choice(["sha1", "sha256", "synth8"])))
+            if scen == "key" and r.random() < 0.25:
+                # the verifying key was built from a plain affine Point: its
+                # public point carries no order of its own (no reduction of
+                # multipliers, no table until precompute() swaps the point)
+                shared[-1]["unscaled"] = False
+                shared[-1]["affine"] = True
     deep = tier == "thorough" and r.random() < 0.3
     nthreads = r.choice([2, 2, 2, 3]) if not deep else r.choice([3, 3, 4])
     ro = core.rng(run_seed, "ops")
@@ -158,9 +164,18 @@ def generate(run_seed, tier):
         threads[0][0] = dict(op="precompute", s=k0, t=k0,
                              lazy=ro.random() < 0.5)
         nm = ro.choice(["pt_mul", "pt_mul", "verify", "pub_x", "to_string"])
+        aff = bool(shared[k0].get("affine"))
+        if aff and ro.random() < 0.5:
+            nm = "pt_mul"
         op = dict(op=nm, s=k0, t=k0)
         if nm == "pt_mul":
             op["k"] = libx.structured_scalar(ro, mc.n, hi_mult=3)
+            if ro.random() < (0.75 if aff else 0.4):
+                # a multiplier far longer than any table (an unreduced hash
+                # value, say), either sign
+                op["k"] = ((1 << (ro.randrange(3, 9) * mc.n.bit_length()))
+                           + ro.getrandbits(mc.n.bit_length())) \
+                    * ro.choice([1, 1, -1])
         if nm == "verify":
             op["msg"] = "a5a5"
         if nm == "to_string":
@@ -256,6 +271,11 @@ class World(object):
                                         Q[1] * z * z * z % p, z, mc.n)
                     vk = lk.VerifyingKey.from_public_point(
                         pt, self.curve, hf, validate_point=False)
+                    sk.verifying_key = vk
+                elif sp.get("affine"):
+                    vk = lk.VerifyingKey.from_public_point(
+                        le.Point(self.curve.curve, Q[0], Q[1]), self.curve,
+                        hf)
                     sk.verifying_key = vk
                 self.objs.append(("K%d" % i, "key", sk, (d, Q, sp["hash"])))
 
